@@ -57,6 +57,10 @@ PRESENCE = [
     (EA + "record_external_action_request", "DuplicateRequest", {"c:get", "f:index"}),
     (EA + "claim_external_action", "DuplicateClaim", {"f:claim"}),
     (EA + "admit_external_action_settlement", "DuplicateSettlement", {"f:settlement"}),
+    # re-issuing a grant after a crash is gated on the NEXT step's record being absent (the grant moves once): a work grant is
+    # never re-issued for a request that already has a durable settlement of ANY kind, a request grant never after a claim
+    (CO + "::recorded_request", "DuplicateClaim", {"f:claim"}),
+    (CO + "::claim_grant", "DuplicateSettlement", {"f:settlement"}),
 ]
 
 
